@@ -104,7 +104,9 @@ def error_to_idle(ck, F, E):
                 # on an emptied immediate line the stepper has nothing to run and no next line: it returns to Idle
                 # (INV-EMPTY-IMMEDIATE, the invariant that also discharges the unwrap of its result)
                 emptied = [x for x in b.calls_to("Program::set_and_goto_immediate_line") if b.dominates(x.bb, c.bb)]
-                if emptied and any(sfx(y.callee, "Interpreter::return_to_idle_state") for y in cb.calls()):
+                from lib import deep_calls
+                if emptied and any(sfx(y.callee, "Interpreter::return_to_idle_state")
+                                   for (_ob, y) in deep_calls(F, cb, lambda p: p.startswith("abasic_core::interpreter::"), depth=2)):
                     return "empties the immediate line and steps once (which returns to Idle)"
                 continue
             if depth < 2:
